@@ -222,3 +222,89 @@ func (g *BadD5) BindRemoteStream(info *interceptor.StreamInfo, r interceptor.RTP
 }
 
 func (g *BadD5) UnbindLocalStream(info *interceptor.StreamInfo) { g.streams.Delete(info.SSRC) }
+
+// ---- D7: the service loop is left only on the lifecycle signal ---------------------------------------------------------
+
+type d7base struct {
+	interceptor.NoOp
+	m     sync.Mutex
+	wg    sync.WaitGroup
+	close chan struct{}
+	work  chan int
+}
+
+func (g *d7base) isClosed() bool {
+	select {
+	case <-g.close:
+		return true
+	default:
+		return false
+	}
+}
+
+func (g *d7base) Close() error {
+	defer g.wg.Wait()
+	g.m.Lock()
+	defer g.m.Unlock()
+	if !g.isClosed() {
+		close(g.close)
+	}
+	return nil
+}
+
+type GoodD7 struct{ d7base }
+
+func (g *GoodD7) BindRTCPWriter(w interceptor.RTCPWriter) interceptor.RTCPWriter {
+	g.m.Lock()
+	defer g.m.Unlock()
+	if g.isClosed() {
+		return w
+	}
+	g.wg.Add(1)
+	go g.goodD7loop(w)
+	return w
+}
+
+// goodD7loop logs a failed write and keeps serving.
+func (g *GoodD7) goodD7loop(w interceptor.RTCPWriter) {
+	defer g.wg.Done()
+	failed := 0
+	for {
+		select {
+		case <-g.close:
+			return
+		case <-g.work:
+			if _, err := w.Write(nil, nil); err != nil {
+				failed++
+			}
+		}
+	}
+}
+
+type BadD7 struct{ d7base }
+
+func (g *BadD7) BindRTCPWriter(w interceptor.RTCPWriter) interceptor.RTCPWriter {
+	g.m.Lock()
+	defer g.m.Unlock()
+	if g.isClosed() {
+		return w
+	}
+	g.wg.Add(1)
+	go g.badD7loop(w)
+	return w
+}
+
+// badD7loop gives up on the first failed write: nobody receives from work any more although the interceptor is open.
+func (g *BadD7) badD7loop(w interceptor.RTCPWriter) {
+	defer g.wg.Done()
+	for {
+		select {
+		case <-g.close:
+			return
+		case <-g.work:
+			if _, err := w.Write(nil, nil); err != nil {
+				return
+			}
+		}
+	}
+}
